@@ -139,5 +139,27 @@ def cfgAcceptsRejects (cfg accepted rejected : String) : Verdict :=
   | .ok (G, _) => acceptsRejectsWith G.accepts accepted rejected
   | .error _ => .error
 
+/-- `check_dfa_language_from_words(text, word_list, length, max_states)`: the answer automaton must not exceed `max_states` states
+    (0 = no bound) and its words up to `length` must be exactly the listed words -/
+def dfaLanguageWords (answer wordList : String) (len maxStates : Nat) : Verdict :=
+  match parseDfa answer.toList with
+  | .ok A => ofBool (Check.languageFromWords (dedup A.Q).length maxStates (A.wordsUpTo len) (parseWordList wordList))
+  | .error _ => .error
+
+/-- `check_nfa_language_from_words` -/
+def nfaLanguageWords (answer wordList : String) (s : Sched) (len maxStates : Nat) : Verdict :=
+  match parseNfa answer.toList with
+  | .ok A =>
+    match A.wordsUpTo s len with
+    | .ok L => ofBool (Check.languageFromWords (dedup A.Q).length maxStates L (parseWordList wordList))
+    | .error _ => .error
+  | .error _ => .error
+
+/-- `check_cfg_language_from_words(text, word_list, length)` (no state bound) -/
+def cfgLanguageWords (answer wordList : String) (len : Nat) : Verdict :=
+  match CfgText.parseSimpleCfg answer.toList with
+  | .ok (G, _) => ofBool (Check.equalLanguages (G.wordsUpTo len) (parseWordList wordList))
+  | .error _ => .error
+
 end CheckText
 end Gamba
